@@ -21,7 +21,7 @@ func cfgC15(tier string) e1Cfg {
 	t := baseTxn()
 	t.PAbort, t.PFailInsert = 20, 12
 	return e1Cfg{Prop: "C15", Kinds: []Kind{KInt, KInt16, KUint64, KFloat64, KBool, KString, KStringCat, KEnum, KRecord}, KeyedPct: 25, LayoutPct: 60, Steps: steps(tier, 130, 400), Pool: "edge",
-		NIdx: 1, Txn: t, DumpEvery: 16, Oracles: oracleSet("stream")}
+		NIdx: 1, Txn: t, DumpEvery: 16, Oracles: oracleSet("stream"), FlakyLogPct: 25}
 }
 
 func e1PhaseFor(cfg func(string) e1Cfg, quick, thorough int) (func(string) Plan, func(*W, int)) {
@@ -81,8 +81,17 @@ func init() {
 		})
 		mp.add(streamPhaseFor("C09", 4, 40))
 		mp.add(probePhaseFor("C09"))
+		mp.add(func(tier string) Plan {
+			n := 4
+			if tier == "thorough" {
+				n = 32
+			}
+			return Plan{Cases: n, Workers: 2, MaxProcs: 8, Timeout: 40 * time.Minute, HangIsViol: true}
+		}, func(w *W, idx int) {
+			withWatchdog(w, idx, fmt.Sprintf("E3:merge-into-new-block:round%d", idx), 5*time.Minute, func() { mergeNewBlockRound(w, idx) })
+		})
 		register(&Property{ID: "C09", Level: "exploration",
-			Rule:   "one case = 48 schedules of 2-3 scripted writers merging into the same rows (additive int64/float64 with distinct bits, order-sensitive v*3+d, string concatenation) mixed with overwrites, in one and two blocks, some beside a snapshot; after all writers joined every block must equal the fold of all commits in the order they reached the logger, and the replicas fed the rewritten (absolute) values must equal the primary; distinct = distinct schedule traces",
+			Rule:   "one case = 48 schedules of 2-3 scripted writers merging into the same rows (additive int64/float64 with distinct bits, order-sensitive v*3+d, string concatenation) mixed with overwrites, in one and two blocks, some beside a snapshot; after all writers joined every block must equal the fold of all commits in the order they reached the logger, and the replicas fed the rewritten (absolute) values must equal the primary; every committed transaction must have a commit applied in every block it changed; further phases: porcupine-checked per-row merge/put/read histories under real parallelism, parallel stream rounds folded in apply order, directed probes, and groups of six transactions started together that merge into one cell of a block nobody has committed to yet (the first creates the block); distinct = distinct schedule traces",
 			Assume: concAssume, Plan: mp.Plan, Run: mp.Run, MinEvents: map[string]int64{"schedules_executed": 500, "schedules_with_reordered_commits": 50}})
 	}
 	{
